@@ -17,7 +17,7 @@ impl Property for C20 {
         "C20"
     }
     fn rule(&self) -> &'static str {
-        "profile `layout`: a generated program - valid, or (1 in 4) broken by one grammar-breaking edit - in one case in eight with one literal replaced by a value in 2^63 .. 2^64-1 - printed twice from one token sequence: canonical (single blanks, LF, no comments; in a quarter of the cases without a line break behind the last line) and re-laid-out with every freedom the statement lists, all after the header line (blank space widened / tabs / CR / removed where adjacency is safe - between a symbol and anything, and between a number and a directly following X / Z / C entry, which lex as the same two tokens (`0X`, `12z`; not C after a hex literal) -, a CR before the LF of all or of some lines, trailing # comments, inserted blank and comment-only lines, literals rewritten in decimal / 0x / 0X either digit case / 0b / 0B / leading-zero octal). One unbroken case in eight is also run with both texts embedded in .dig documents and loaded with load_test. Oracle (metamorphic, no reference semantics): same Ok/Err from parsing, same from binding, and equal items from equally scripted runs (dynamic, and static when possible) except `line`, which must move exactly to where the printer put that row. Non-trivial: the two texts differ in >= 3 kinds of layout change including a radix change or a removed blank; distinct by both texts."
+        "profile `layout`: a generated program - valid, or (1 in 4) broken by one grammar-breaking edit - in one case in eight with one literal replaced by a value in 2^63 .. 2^64-1 (in a third of these a literal inside an expression, with a unary minus put in front) - printed twice from one token sequence: canonical (single blanks, LF, no comments; in a quarter of the cases without a line break behind the last line) and re-laid-out with every freedom the statement lists, all after the header line (blank space widened / tabs / CR / removed where adjacency is safe - between a symbol and anything, and between a number and a directly following X / Z / C entry, which lex as the same two tokens (`0X`, `12z`; not C after a hex literal) -, a CR before the LF of all or of some lines, trailing # comments, inserted blank and comment-only lines, literals rewritten in decimal / 0x / 0X either digit case / 0b / 0B / leading-zero octal). One unbroken case in eight is also run with both texts embedded in .dig documents and loaded with load_test. Oracle (metamorphic, no reference semantics): same Ok/Err from parsing, same from binding, and equal items from equally scripted runs (dynamic, and static when possible) except `line`, which must move exactly to where the printer put that row. Non-trivial: the two texts differ in >= 3 kinds of layout change including a radix change or a removed blank; distinct by both texts."
     }
     fn cases(&self, tier: Tier) -> u64 {
         match tier {
@@ -29,7 +29,7 @@ impl Property for C20 {
         [400, 400, 60]
     }
     fn required_classes(&self) -> Vec<&'static str> {
-        vec!["reradixed", "removed-blank", "tabs-or-cr", "trailing-comment", "inserted-lines", "broken-program", "valid-program", "rows-compared", "static-compared", "number-joined-to-X/Z/C", "mixed-line-ends", "literal-beyond-i64", "canonical-text-without-final-newline", "both-texts-loaded-from-dig-documents"]
+        vec!["reradixed", "removed-blank", "tabs-or-cr", "trailing-comment", "inserted-lines", "broken-program", "valid-program", "rows-compared", "static-compared", "number-joined-to-X/Z/C", "mixed-line-ends", "literal-beyond-i64", "negated-literal-beyond-i64", "canonical-text-without-final-newline", "both-texts-loaded-from-dig-documents"]
     }
     fn run(&self, s: &Streams) -> CaseOut {
         let mut out = CaseOut::new();
@@ -58,17 +58,32 @@ impl Property for C20 {
                 .filter(|(_, l)| l.kind != LineKind::Header)
                 .flat_map(|(li, l)| l.toks.iter().enumerate().filter(|(_, t)| matches!(t.class, TokClass::Num(..))).map(move |(ti, _)| (li, ti)))
                 .collect();
+            // (in a third of these the literal is one inside an expression and gets a unary minus
+            // in front: -2^63 is the one value whose magnitude alone does not fit)
+            let in_expr: Vec<(usize, usize)> = sites
+                .iter()
+                .copied()
+                .filter(|&(li, ti)| ti > 0 && lines[li].toks[ti - 1].class == TokClass::Sym && lines[li].toks[ti - 1].text != ")")
+                .collect();
+            let negate = !in_expr.is_empty() && dch.chance(1, 3);
+            let sites = if negate { in_expr } else { sites };
             if !sites.is_empty() {
                 let (li, ti) = sites[dch.upto(sites.len())];
                 if let TokClass::Num(_, r) = lines[li].toks[ti].class {
-                    let v = match dch.upto(4) {
+                    let v = match dch.upto(if negate { 2 } else { 4 }) {
                         0 => 1u64 << 63,
-                        1 => u64::MAX,
-                        2 => (1u64 << 63) + 5,
+                        1 => (1u64 << 63) + dch.upto(2) as u64 * 5,
+                        2 => u64::MAX,
                         _ => dch.u64() | (1u64 << 63),
                     };
                     lines[li].toks[ti] = Tok { text: fmt_num(v, r), class: TokClass::Num(v, r) };
                     out.class("literal-beyond-i64");
+                    if negate {
+                        if lines[li].toks[ti - 1].text != "-" {
+                            lines[li].toks.insert(ti, Tok { text: "-".into(), class: TokClass::Sym });
+                        }
+                        out.class("negated-literal-beyond-i64");
+                    }
                 }
             }
         }
